@@ -1659,6 +1659,10 @@ fn gen_logs(rec: &mut Rec, rng: &mut Rng, cases: u64, thorough: bool) {
             let seed = if rng.chance(1, 4) { 1000 + rng.below(3) } else { rng.below(1000) };
             if rng.chance(1, 3) {
                 rec.op(&format!("logreq {}", len));
+                // the crash point between the two halves: what the host would read if the copy never came
+                if rng.chance(1, 2) {
+                    rec.op("logs?");
+                }
                 rec.op(&format!("logcopy {} {}", len, seed));
             } else if len < 5000 && rng.chance(1, 8) {
                 rec.op(&format!("logunwind {} {}", len, seed));
@@ -1696,6 +1700,7 @@ fn gen_logs(rec: &mut Rec, rng: &mut Rng, cases: u64, thorough: bool) {
     rec.op("init c0");
     for len in [1u64 << 31, (1u64 << 32) - 1, u64::MAX >> (64 - WIDTH as u64), 1001, 2002, 0] {
         rec.op(&format!("logreq {}", len));
+        rec.op("logs?");
     }
 }
 
